@@ -6,6 +6,6 @@ From ClapModel Require Import Sources.Present.
 Extraction Language OCaml.
 Separate Extraction
   Cmd.arg_new Cmd.group_new Cmd.cmd_new Cmd.settings_none Cmd.settings_or
-  Build.build_self Build.build_recursive Valid.valid Valid.assert_app
+  Build.build_self Build.build_recursive Build.build_subcommand Cmd.id_exists Valid.valid Valid.assert_app
   Parser.parse_top Parser.do_parse Parser.matches_depth Errors.all_kinds Errors.exit_code Errors.use_stderr
   Present.args_present Present.present_chain.
